@@ -192,6 +192,19 @@ def instance_exists(model, rule):
     return None
 
 
+def _attr_bytes(a):
+    if a.type in (5, 10):
+        return b""
+    if a.type == onnx.AttributeProto.TENSOR and a.t.name:
+        # the NAME of the tensor inside a Constant's attribute carries no meaning (serialisation derives it from the value's name, which
+        # changes when a pass-through replacement hands the matched output's name to the value)
+        c = onnx.AttributeProto()
+        c.CopyFrom(a)
+        c.t.name = ""
+        return c.SerializeToString()
+    return a.SerializeToString()
+
+
 def untouched_multiset(model, touched):
     c = Counter()
     for where, nodes, _, _ in graphs_of(model):
@@ -199,7 +212,7 @@ def untouched_multiset(model, touched):
         for n in nodes:
             if n.op_type in touched:
                 continue
-            attrs = tuple(sorted((a.name, a.type, a.SerializeToString() if a.type not in (5, 10) else b"") for a in n.attribute))
+            attrs = tuple(sorted((a.name, a.type, _attr_bytes(a)) for a in n.attribute))
             c[(lvl, n.domain, n.op_type, attrs, n.doc_string)] += 1
     return c
 
